@@ -1,7 +1,11 @@
 //! Engine `writer`: operation histories on the real `DeferredWriter` over a scheduled sink (C11,
 //! C14 writer part).
 //! Case: `writer s=<sink schedule> o=<ops>`
-//!   schedule tokens: a<n> accept ≤ n, i Interrupted, z Ok(0), f terminal error, p panic
+//!   schedule tokens: a<n> accept ≤ n, i Interrupted, z Ok(0), f terminal error, p panic,
+//!   o over-report: the sink takes nothing and returns `Ok(len + 1)`, more than it was offered — a safe `Write`
+//!     impl may do that; std's `write_all` then panics at `&buf[n..]`, so for the writer (and for the model,
+//!     whose driver reads `o` as `p`) this is a sink that panics having accepted nothing.  A writer that trusted
+//!     the count would hand the sink memory outside its buffer next: every call checks the offered lengths.
 //!   (the sink also implements `write_vectored` with the same semantics over all slices offered;
 //!   the call is logged like a `write` of their total length)
 //!   ops: w<len>.<seed>  write_all(len bytes) | W<len>.<seed> write() | d<ty>:<value> ascii_digits
@@ -27,6 +31,7 @@ pub enum WEv {
     Zero,
     Fail,
     Panic,
+    Over,
 }
 
 #[derive(Default)]
@@ -35,6 +40,7 @@ pub struct SinkState {
     pub sunk: Vec<u8>,
     pub log: Vec<(usize, usize)>,
     pub failed_at: Option<usize>, // log index of the first terminal failure (fail / zero)
+    pub oversize: Option<usize>,  // a slice longer than anything the writer can hold or was given (C14)
 }
 
 #[derive(Clone)]
@@ -46,6 +52,12 @@ impl Sink {
     /// The call is logged like a `write` of the total offered length.
     fn offer(&mut self, bufs: &[&[u8]]) -> io::Result<usize> {
         let mut s = self.0.borrow_mut();
+        if let Some(b) = bufs.iter().find(|b| b.len() > 1 << 40) {
+            // not a slice of the writer's buffer or of caller data: do not touch it
+            s.oversize = Some(b.len());
+            drop(s);
+            panic!("sink panic");
+        }
         let total: usize = bufs.iter().map(|b| b.len()).sum();
         let ev = s.sched.pop_front();
         let take = |s: &mut SinkState, mut k: usize| {
@@ -89,6 +101,10 @@ impl Sink {
                 s.log.push((total, 1000003));
                 drop(s);
                 panic!("sink panic");
+            }
+            Some(WEv::Over) => {
+                s.log.push((total, 1000003));
+                Ok(total + 1)
             }
         }
     }
@@ -135,6 +151,7 @@ fn parse_sched(s: &str) -> Vec<WEv> {
             b'z' => WEv::Zero,
             b'f' => WEv::Fail,
             b'p' => WEv::Panic,
+            b'o' => WEv::Over,
             _ => panic!("bad sink event"),
         })
         .collect()
@@ -255,7 +272,7 @@ pub fn run_case(line: &str) -> (String, Vec<String>) {
     let (_, f) = Fields::parse(line);
     let sched = parse_sched(f.get("s"));
     let benign = sched.iter().all(|e| matches!(e, WEv::Accept(_) | WEv::Intr));
-    let sink_may_panic = sched.iter().any(|e| matches!(e, WEv::Panic));
+    let sink_may_panic = sched.iter().any(|e| matches!(e, WEv::Panic | WEv::Over));
     let sink = Sink(Rc::new(RefCell::new(SinkState { sched: sched.into(), ..Default::default() })));
     // both constructors (the model does not distinguish them)
     let mut w = ManuallyDrop::new(if line.len() % 2 == 1 {
@@ -338,6 +355,9 @@ pub fn run_case(line: &str) -> (String, Vec<String>) {
         // ---- oracle bookkeeping ----
         {
             let s = sink.0.borrow();
+            if let Some(n) = s.oversize {
+                fails.push(format!("C14:op{} the sink was handed a slice of {} bytes: memory outside the writer's buffer and the caller's data", i, n));
+            }
             if log_len_at_failure.is_none() {
                 if let Some(at) = s.failed_at {
                     log_len_at_failure = Some(at);
@@ -464,6 +484,7 @@ pub fn gen_case(rng: &mut Rng, thorough: bool) -> String {
             _ => match rng.below(10) {
                 0 => "p".into(),
                 1 => "f".into(),
+                2 => "o".into(),
                 _ => format!("a{}", *rng.pick(&[3usize, CAP, 4 * CAP])),
             },
         };
